@@ -36,7 +36,7 @@ def if_(k, body, orelse=()): return {"s": "if", "k": k, "body": list(body), "ore
 def try_(body, handlers=(), orelse=(), final=()):
     return {"s": "try", "body": list(body), "handlers": [dict(h) for h in handlers], "orelse": list(orelse), "final": list(final)}
 def handler(nm, body, typ="ScriptExc"): return {"name": nm, "type": typ, "body": list(body)}
-def with_(k, t, body): return {"s": "with", "k": k, "t": t, "body": list(body)}
+def with_(k, t, body, sup=False): return {"s": "with", "k": k, "t": t, "body": list(body), "sup": sup}   # sup: the manager swallows exceptions
 def import_(mod, asname=""): return {"s": "import", "mod": mod, "as": asname}
 def from_import(mod, nm, asname=""): return {"s": "from", "mod": mod, "name": nm, "as": asname}
 def def_(nm, body): return {"s": "def", "name": nm, "body": list(body)}
@@ -207,7 +207,7 @@ def p_stmt(s, ind, twin):
             out += [f"{ind}finally:"] + p_block(s["final"], nxt, twin)
         return out
     if k == "with":
-        head = f"{ind}with CM({s['k']})" + (f" as {s['t']}" if s["t"] else "") + ":"
+        head = f"{ind}with {'SCM' if s.get('sup') else 'CM'}({s['k']})" + (f" as {s['t']}" if s["t"] else "") + ":"
         return [head] + (binds([s["t"]], nxt) if twin and s["t"] else []) + p_block(s["body"], nxt, twin)
     if k == "import":
         nm = s["as"] or s["mod"].split(".")[0]
@@ -238,7 +238,7 @@ def p_stmt(s, ind, twin):
     raise ValueError(k)
 
 
-HEADER = "from harness.worlds.rt2 import E, C, R, IT, U, O, CM, F, B, SEEN, A, LS, ScriptExc\nfrom ptera import tag\n" \
+HEADER = "from harness.worlds.rt2 import E, C, R, IT, U, O, CM, SCM, F, B, SEEN, A, LS, ScriptExc\nfrom ptera import tag\n" \
          "def BX(name, value):\n    B(name, value)\n    return value\n"
 
 
